@@ -47,6 +47,15 @@ def reroute_ops_through(*, target: "Tensor", source: "Tensor"):
         )
 
 
+def is_view_child(*, base: "Tensor", tensor: "Tensor") -> bool:
+    """Returns True if `tensor` can be reached from `base` through
+    recorded view-children."""
+    return any(
+        child is tensor or is_view_child(base=child, tensor=tensor)
+        for child in base._view_children
+    )
+
+
 def make_placeholder_tensor(
     original: "Tensor", *, base: Optional["Tensor"] = None
 ) -> "Tensor":
